@@ -7,6 +7,8 @@ def ev_ok(names):
 
 
 LEDGER_DRIVERS = [{"name": "ledger", "args": {"quick": [60, 120], "thorough": [3000, 300]}}]
+# episodes that need an exact coincidence (harness/src/drv2.rs)
+EDGE_DRIVERS = [{"name": "edge", "args": {"quick": [144], "thorough": [6000]}}]
 
 
 LEDGER_MODELS = [
@@ -41,7 +43,7 @@ def ledger_prop(extra_ops=()):
     ops = ["deposit", "withdraw", "borrow", "repay", "liquidate", "bankruptcy", "accrue", "collect_fees", "close_balance"] + list(extra_ops)
     return {
         "models": LEDGER_MODELS,
-        "drivers": LEDGER_DRIVERS,
+        "drivers": LEDGER_DRIVERS + EDGE_DRIVERS,
         "nontrivial": succ(ops),
         "rule": "each executed instruction is one evaluation; non-trivial = successful ledger instruction; distinct by (instruction, arguments)",
         "min_nontrivial": 200,
@@ -176,25 +178,25 @@ PROPS = {
     "C19": risk_prop2(["collect_fees", "withdraw_fees", "withdraw_fees_perm", "withdraw_insurance", "settle_emissions", "withdraw_emissions",
                        "withdraw_emissions_perm", "deposit", "withdraw"], ADMIN_DRIVERS + LEDGER_DRIVERS, models=LEDGER_MODELS, minnt=200),
     "C08": {
-        "models": AUTH_MODELS + PDA_MODELS,
-        "drivers": STAKED_DRIVERS + RISK_DRIVERS + LIQ_DRIVERS + KAMINO_DRIVERS,
+        "models": AUTH_MODELS + PDA_MODELS + [txm("Recv2", "setups/tx.json")],
+        "drivers": STAKED_DRIVERS + RISK_DRIVERS + LIQ_DRIVERS + KAMINO_DRIVERS + RECV_DRIVERS + ADMIN_DRIVERS,
         "nontrivial": auth_nontrivial,
         "rule": "each matrix cell (instruction x variant: unmodified, signer identity, missing signature, slot x foreign object; normal and frozen account; every role-gated instruction x identity after every re-assignment of a group role) executed through marginfi::entry is one evaluation, so is every role assignment and every instruction executed with a substituted price account; all are non-trivial; distinct by (cell, variant, identity, substitution, mode, result)",
         "min_nontrivial": 500,
     },
     "C04": dict(risk_prop(["borrow", "withdraw", "kamino_withdraw", "drift_withdraw", "solend_withdraw", "tx"]), models=RISK_MODELS + RISKCFG_MODELS, drivers=RISK_DRIVERS + LEDGER_DRIVERS + STAKED_DRIVERS + KAMINO_DRIVERS),
-    "C05": risk_prop2(["liquidate"], LIQ_DRIVERS + LEDGER_DRIVERS + STAKED_DRIVERS, models=RISK_MODELS + RISKCFG_MODELS),
-    "C07": risk_prop2(["bankruptcy"], LIQ_DRIVERS + LEDGER_DRIVERS, models=RISK_MODELS),
+    "C05": risk_prop2(["liquidate"], LIQ_DRIVERS + LEDGER_DRIVERS + STAKED_DRIVERS + EDGE_DRIVERS, models=RISK_MODELS + RISKCFG_MODELS),
+    "C07": risk_prop2(["bankruptcy"], LIQ_DRIVERS + LEDGER_DRIVERS + EDGE_DRIVERS, models=RISK_MODELS),
     "C09": risk_prop2(["borrow", "withdraw", "liquidate", "bankruptcy", "pulse_health"], LIQ_DRIVERS + RISK_DRIVERS + LEDGER_DRIVERS + STAKED_DRIVERS + KAMINO_DRIVERS, models=RISK_MODELS + ORACLE_MODELS + RISKCFG_MODELS),
     "C13": risk_prop2(["add_bank", "add_bank_staked", "add_bank_kamino", "add_bank_drift", "add_bank_solend", "init_staked_settings", "edit_staked_settings", "propagate_staked", "configure_bank", "configure_emode", "borrow", "withdraw", "pulse_health", "bankruptcy", "clone_emode"],
                       LIQ_DRIVERS + RISK_DRIVERS + ADMIN_DRIVERS + STAKED_DRIVERS + KAMINO_DRIVERS, models=RISK_MODELS + CONFIG_MODELS + RISKCFG_MODELS),
-    "C14": risk_prop2(["deposit", "withdraw", "borrow", "repay", "liquidate", "bankruptcy", "propagate_fee"], LIQ_DRIVERS + RISK_DRIVERS, models=GATE_MODELS),
-    "C01": ledger_prop(),
-    "C02": dict(ledger_prop(extra_ops=["purge", "transfer_account", "kamino_deposit", "kamino_withdraw", "drift_deposit", "drift_withdraw", "solend_deposit", "solend_withdraw"]), drivers=LEDGER_DRIVERS + LIQ_DRIVERS + ADMIN_DRIVERS + KAMINO_DRIVERS, models=LEDGER_MODELS + VENUE_MODELS),
-    "C03": dict(ledger_prop(extra_ops=["kamino_deposit", "kamino_withdraw", "drift_deposit", "drift_withdraw", "solend_deposit", "solend_withdraw"]), drivers=LEDGER_DRIVERS + KAMINO_DRIVERS, models=LEDGER_MODELS + VENUE_MODELS),
-    "C06": dict(ledger_prop(), drivers=LEDGER_DRIVERS + [{"name": "caps", "args": {"quick": [200], "thorough": [4000]}}]),
-    "C16": dict(ledger_prop(), models=LEDGER_MODELS + PDA_MODELS, drivers=LEDGER_DRIVERS + [{"name": "struct", "args": {"quick": [60], "thorough": [2000]}}] + LIQ_DRIVERS + STAKED_DRIVERS + ADMIN_DRIVERS + KAMINO_DRIVERS),
-    "C17": dict(ledger_prop(), drivers=LEDGER_DRIVERS + [{"name": "caps", "args": {"quick": [300], "thorough": [8000]}}]),
+    "C14": risk_prop2(["deposit", "withdraw", "borrow", "repay", "liquidate", "bankruptcy", "propagate_fee"], LIQ_DRIVERS + RISK_DRIVERS + EDGE_DRIVERS, models=GATE_MODELS),
+    "C01": dict(ledger_prop(), drivers=LEDGER_DRIVERS + EDGE_DRIVERS + LIQ_DRIVERS),
+    "C02": dict(ledger_prop(extra_ops=["purge", "transfer_account", "kamino_deposit", "kamino_withdraw", "drift_deposit", "drift_withdraw", "solend_deposit", "solend_withdraw"]), drivers=LEDGER_DRIVERS + LIQ_DRIVERS + ADMIN_DRIVERS + KAMINO_DRIVERS + EDGE_DRIVERS, models=LEDGER_MODELS + VENUE_MODELS),
+    "C03": dict(ledger_prop(extra_ops=["kamino_deposit", "kamino_withdraw", "drift_deposit", "drift_withdraw", "solend_deposit", "solend_withdraw"]), drivers=LEDGER_DRIVERS + KAMINO_DRIVERS + EDGE_DRIVERS, models=LEDGER_MODELS + VENUE_MODELS),
+    "C06": dict(ledger_prop(), drivers=LEDGER_DRIVERS + EDGE_DRIVERS + [{"name": "caps", "args": {"quick": [200], "thorough": [4000]}}]),
+    "C16": dict(ledger_prop(), models=LEDGER_MODELS + PDA_MODELS, drivers=LEDGER_DRIVERS + [{"name": "struct", "args": {"quick": [60], "thorough": [2000]}}] + LIQ_DRIVERS + STAKED_DRIVERS + ADMIN_DRIVERS + KAMINO_DRIVERS + EDGE_DRIVERS),
+    "C17": dict(ledger_prop(), drivers=LEDGER_DRIVERS + EDGE_DRIVERS + [{"name": "caps", "args": {"quick": [300], "thorough": [8000]}}]),
     "C15": {
         "models": [
             {"name": "panic", "module": "Panic.tla", "cfg": {"quick": "MC_PanicQuick.cfg", "thorough": "MC_PanicThorough.cfg"},
